@@ -15,14 +15,14 @@ struct ProgFixture {
 	std::map<int, randomx_vm*> vms;
 	randomx_flags hw;
 	std::vector<uint8_t> sp0, spA, spB;
-	explicit ProgFixture(uint64_t seed, bool needCache = true) : sp0(kScratchpadBytes), spA(kScratchpadBytes), spB(kScratchpadBytes) {
+	explicit ProgFixture(uint64_t seed, bool needCache = true, uint64_t datasetExtent = 0) : sp0(kScratchpadBytes), spA(kScratchpadBytes), spB(kScratchpadBytes) {
 		hw = api::getFlags();
 		if (needCache) {
 			const char key[] = "rxv program fixture key";
 			cache.reset(new CacheHolder((randomx_flags)(RANDOMX_FLAG_DEFAULT | (hw & (RANDOMX_FLAG_ARGON2_AVX2 | RANDOMX_FLAG_ARGON2_SSSE3))), key, sizeof key - 1));
 			if (!cache->c) R.harnessFail("fixture cache");
 		}
-		ds.reset(new FakeDataset(seed));
+		ds.reset(new FakeDataset(seed, 32u << 20, datasetExtent));
 		if (!ds->ok) R.harnessFail("fixture dataset");
 	}
 	~ProgFixture() { for (auto& kv : vms) if (kv.second) api::destroyVm(kv.second); }
